@@ -19,17 +19,3 @@ func ZZ_C03_STUNResponse() {
 		verifCover("rejected")
 	}
 }
-
-// pion's XorBytes works word-wise through unsafe pointers; byte-wise here.
-//
-//verif:model github.com/pion/transport/v4/utils/xor.XorBytes
-func zzModelXorBytes(dst, a, b []byte) int {
-	n := len(a)
-	if len(b) < n {
-		n = len(b)
-	}
-	for i := 0; i < n; i++ {
-		dst[i] = a[i] ^ b[i]
-	}
-	return n
-}
